@@ -39,6 +39,10 @@ type TCPMuxDefault struct {
 	// connsIPv4 and connsIPv6 are maps of all tcpPacketConns indexed by ufrag and local address
 	connsIPv4, connsIPv6 map[string]map[ipAddr]*tcpPacketConn
 
+	// pending holds the accepted connections that are not attached to a
+	// tcpPacketConn yet (their first packet is awaited or being examined).
+	pending map[net.Conn]struct{}
+
 	mu sync.Mutex
 	wg sync.WaitGroup
 }
@@ -84,6 +88,7 @@ func NewTCPMuxDefault(params TCPMuxParams) *TCPMuxDefault {
 
 		connsIPv4: map[string]map[ipAddr]*tcpPacketConn{},
 		connsIPv6: map[string]map[ipAddr]*tcpPacketConn{},
+		pending:   map[net.Conn]struct{}{},
 	}
 
 	mux.wg.Add(1)
@@ -205,6 +210,23 @@ func (m *TCPMuxDefault) closeAndLogError(closer io.Closer) {
 }
 
 func (m *TCPMuxDefault) handleConn(conn net.Conn) { //nolint:cyclop
+	// Until it is attached the connection is owned by the mux: Close has to be
+	// able to close it, or it would wait for the first packet of an idle client.
+	m.mu.Lock()
+	if m.closed {
+		m.mu.Unlock()
+		m.closeAndLogError(conn)
+
+		return
+	}
+	m.pending[conn] = struct{}{}
+	m.mu.Unlock()
+	defer func() {
+		m.mu.Lock()
+		delete(m.pending, conn)
+		m.mu.Unlock()
+	}()
+
 	buf := make([]byte, 512)
 
 	if m.params.FirstStunBindTimeout > 0 {
@@ -354,6 +376,10 @@ func (m *TCPMuxDefault) Close() error {
 
 	m.connsIPv4 = map[string]map[ipAddr]*tcpPacketConn{}
 	m.connsIPv6 = map[string]map[ipAddr]*tcpPacketConn{}
+
+	for conn := range m.pending {
+		_ = conn.Close()
+	}
 
 	err := m.params.Listener.Close()
 
